@@ -658,10 +658,16 @@ func (h *handler1) handleSubscribe(ctx context.Context, snSubscribe *snPkts1.Sub
 	// 	contains wildcard characters
 	// We will use topicID=0 in such cases. SubackMessage
 	var topicID uint16
+	// The TopicID was registered because of this SUBSCRIBE.
+	var newTopicID bool
 	switch snSubscribe.TopicIDType {
 	case snPkts1.TIT_STRING:
 		topic = string(snSubscribe.TopicName)
-		if !hasWildcard(topic) {
+		if existingID, ok := h.findRegisteredTopicID(topic); ok {
+			// The client knows this TopicID already (one topic must not
+			// have two TopicIDs - the client could not resolve one of them).
+			topicID = existingID
+		} else if !hasWildcard(topic) {
 			var err error
 			topicID, err = h.newTopicID()
 			if err != nil {
@@ -678,6 +684,7 @@ func (h *handler1) handleSubscribe(ctx context.Context, snSubscribe *snPkts1.Sub
 			// the Subscription before the Server sends the SUBACK Packet.
 			// [MQTT v.5.0, chapter 3.8.4 SUBSCRIBE Actions]
 			h.registeredTopics.Store(topicID, topic)
+			newTopicID = true
 		}
 		// topicID remains zero if client is subscribing to a wildcard topic.
 	case snPkts1.TIT_PREDEFINED:
@@ -696,7 +703,7 @@ func (h *handler1) handleSubscribe(ctx context.Context, snSubscribe *snPkts1.Sub
 	}
 
 	msgID := snSubscribe.MessageID()
-	transaction := newSubscribeTransaction(ctx, h, msgID, topicID)
+	transaction := newSubscribeTransaction(ctx, h, msgID, topicID, newTopicID)
 	h.transactions.Store(msgID, transaction)
 
 	mqSubscribe := mqPkts.NewControlPacket(mqPkts.Subscribe).(*mqPkts.SubscribePacket)
